@@ -290,11 +290,12 @@ package runtime
 // ---- subject lookup: variables first, then the point; `_` is the message --------------------------
 
 //@ func (*Task).GetKey
-//@ ensures[C11] ncalls((*Stack).Get) == 1 && callarg((*Stack).Get, 0, 1) == (key == "_" ? "message" : key)
-//@ ensures[C11] callres((*Stack).Get, 0, 1) == nil ==> result1 == nil && result0 == callres((*Stack).Get, 0, 0) && ncalls(Input.Get) == 0
-//@ ensures[C11] callres((*Stack).Get, 0, 1) != nil ==> ncalls(Input.Get) == 1 && callarg(Input.Get, 0, 1) == (key == "_" ? "message" : key)
-//@ ensures[C11] callres((*Stack).Get, 0, 1) != nil && callres(Input.Get, 0, 2) == nil ==> result1 == nil && fresh(result0) && result0.Value == callres(Input.Get, 0, 0) && result0.DType == callres(Input.Get, 0, 1)
-//@ ensures[C11] callres((*Stack).Get, 0, 1) != nil && callres(Input.Get, 0, 2) != nil ==> result1 != nil
+//@ ensures[C03] callarg((*Stack).Get, 0, 0) == ctx.stackCur
+//@ ensures[C11,C03] ncalls((*Stack).Get) == 1 && callarg((*Stack).Get, 0, 1) == (key == "_" ? "message" : key)
+//@ ensures[C11,C03] callres((*Stack).Get, 0, 1) == nil ==> result1 == nil && result0 == callres((*Stack).Get, 0, 0) && ncalls(Input.Get) == 0
+//@ ensures[C11,C03] callres((*Stack).Get, 0, 1) != nil ==> ncalls(Input.Get) == 1 && callarg(Input.Get, 0, 1) == (key == "_" ? "message" : key)
+//@ ensures[C11,C03] callres((*Stack).Get, 0, 1) != nil && callres(Input.Get, 0, 2) == nil ==> result1 == nil && fresh(result0) && result0.Value == callres(Input.Get, 0, 0) && result0.DType == callres(Input.Get, 0, 1)
+//@ ensures[C11,C03] callres((*Stack).Get, 0, 1) != nil && callres(Input.Get, 0, 2) != nil ==> result1 != nil
 
 
 //@ func (*Task).GetKeyConv2Str
